@@ -73,7 +73,7 @@ def render_stmts(stmts, files, ind=0) -> list[str]:
         elif k == "data":
             out.append(f"{pad}.{s['d']} " + ", ".join(rexpr(e) for e in s["es"]))
         elif k == "ascii":
-            out.append(f"{pad}.ascii '" + "".join(chr(c) for c in s["s"]) + "'")
+            out.append(f"{pad}.ascii '" + (s["src"] if "src" in s else "".join(chr(c) for c in s["s"])) + "'")
         elif k == "incbin":
             files[s["file"]] = {"bytes": s["bs"]}
             out.append(f"{pad}.incbin '{s['file']}'")
